@@ -523,6 +523,19 @@ UnitsSpec genDefinition(GenCtx &g, size_t mi, const std::string &name, const std
             }
             u.units.clear();
         }
+        // nothing to respell yet: make a respellable definition (p x)^e over a scale-free palette unit
+        UnitSpec c;
+        c.ref = src.pick(g.palette);
+        if ((findUnits(m.spec, c.ref) == nullptr && !isStandardUnit(c.ref)) || p.red(m, c.ref).log10scale != 0.0) {
+            c.ref = "second";
+        }
+        c.prefix = genPrefix(src);
+        c.exponent = src.flip(50) ? 3.0 : 2.0;
+        u.units.push_back(c);
+        if (src.flip(50)) {
+            u.units.push_back(genChild(g, mi, prev));
+        }
+        return u;
     }
     size_t n = 1 + src.below(4);
     for (size_t i = 0; i < n; ++i) {
@@ -826,6 +839,28 @@ struct ConsumerEnv
     Case &c;
 };
 
+// A consumer model can be rejected for reasons that are not C08's subject; such models are counted and not judged:
+//  * "Cyclic units exist": the world is acyclic by construction - a false positive of the validator's units-cycle
+//    check (seen when a units is referenced twice and reaches an import); import/cycle validation is C07's subject;
+//  * "Cyclic dependencies were found": the validator's own never-popped import history (validator.cpp validateUnits),
+//    same pattern and same inputs as the known finding import-revisited-after-chain.
+bool unrelatedRejection(ConsumerEnv &e, const std::string &d)
+{
+    if (d.find("Cyclic units exist") != std::string::npos) {
+        e.c.count("consumer_model_rejected_by_false_cycle_report_not_judged");
+        return true;
+    }
+    if (d.find("Cyclic dependencies were found") != std::string::npos) {
+        for (const auto &m : e.members) {
+            if (m.traits.importRevisit) {
+                e.c.count("consumer_model_rejected_import-revisited-after-chain_not_judged");
+                return true;
+            }
+        }
+    }
+    return false;
+}
+
 // Validator: units-mismatch issue on the connection iff incompatible; hint factor consistent.
 void consumerValidator(ConsumerEnv &e, const std::vector<ConsumerPair> &pairs, bool flatten)
 {
@@ -880,17 +915,16 @@ void consumerValidator(ConsumerEnv &e, const std::vector<ConsumerPair> &pairs, b
         size_t p = d.find("' in component 'v");
         size_t k = p == std::string::npos ? pairs.size() : static_cast<size_t>(atoi(d.c_str() + p + 18));
         if (is->referenceRule() != Issue::ReferenceRule::MAP_VARIABLES_ELEMENT || d.find("non-matching units") == std::string::npos || k >= pairs.size()) {
-            unexpected = d;
+            if (unexpected.empty() || d.find("Cyclic") != std::string::npos) {
+                unexpected = d;
+            }
             continue;
         }
         ++reported[k];
         text[k] = d;
     }
     if (!unexpected.empty()) {
-        if (unexpected.find("Cyclic units exist") != std::string::npos) {
-            // the world is acyclic by construction: a false positive of the validator's units-cycle check (seen when a
-            // units is referenced twice and reaches an import) - import/cycle validation is C07's subject
-            e.c.count("consumer_model_rejected_by_false_cycle_report_not_judged");
+        if (unrelatedRejection(e, unexpected)) {
             return;
         }
         if (flatten) {
@@ -1033,8 +1067,7 @@ void consumerAnalyser(ConsumerEnv &e, const std::vector<ConsumerPair> &pairs, bo
     std::vector<int> warned(pairs.size(), 0);
     std::vector<std::string> wtext(pairs.size());
     for (size_t i = 0; i < an->issueCount(); ++i) {
-        if (an->issue(i)->description().find("Cyclic units exist") != std::string::npos) {
-            e.c.count("consumer_model_rejected_by_false_cycle_report_not_judged");
+        if (unrelatedRejection(e, an->issue(i)->description())) {
             return;
         }
     }
@@ -1163,7 +1196,9 @@ void consumerAnalyser(ConsumerEnv &e, const std::vector<ConsumerPair> &pairs, bo
             bool borderline = compatRef && std::fabs(dk) < 1e-9 && dk != 0.0;
             e.c.count("consumer_analyser_warning_judged");
             if ((warned[k] != 0) == equivalentRef && !borderline) {
-                e.fails.add("C08.consumer-verdict|analyser-units-warning|" + cls, "p:" + A.label + ", q:" + B.label + ", q = p; reference equivalent=" + (equivalentRef ? "1" : "0") + " warning: " + (warned[k] != 0 ? wtext[k] : "(none)"));
+                // the analyser's updateUnitsMultiplier shares the once-per-leaf defect of the validator's hint
+                std::string wloc = (A.traits.scaledRefToMultiLeaf || B.traits.scaledRefToMultiLeaf) ? "scaled-reference-to-multi-leaf-units" : cls;
+                e.fails.add("C08.consumer-verdict|analyser-units-warning|" + wloc, "p:" + A.label + ", q:" + B.label + ", q = p; reference equivalent=" + (equivalentRef ? "1" : "0") + " warning: " + (warned[k] != 0 ? wtext[k] : "(none)"));
             }
         } else if (e.probe) {
             bool equivalentUnits = Units::equivalent(A.obj, B.obj);
@@ -1709,10 +1744,21 @@ void run(Src &src, Case &c)
                 }
             }
         }
+        // probe mode looks at the known disagreement outside the exponent-1 regime: prefer compatible pairs with one side in it
+        std::vector<ConsumerPair> straddling;
+        if (probe) {
+            for (const auto &p : compatiblePairs) {
+                if (members[p.a].red.exp1Regime != members[p.b].red.exp1Regime) {
+                    straddling.push_back(p);
+                }
+            }
+        }
         std::vector<ConsumerPair> pairs;
         for (size_t k = 0; k < nConsumers; ++k) {
             ConsumerPair p;
-            if (!compatiblePairs.empty() && src.below(10) < 6) {
+            if (!straddling.empty() && src.below(10) < 7) {
+                p = src.pick(straddling);
+            } else if (!compatiblePairs.empty() && src.below(10) < 6) {
                 p = src.pick(compatiblePairs);
             } else {
                 p.a = src.pick(usable);
